@@ -31,3 +31,12 @@ let bool_of_s s = (s = "1")
 let s_of_bool b = if b then "1" else "0"
 let split_tab (s : string) : string list = String.split_on_char '\t' s
 let split_on (c : char) (s : string) : string list = if s = "" then [] else String.split_on_char c s
+
+(* decimal string -> Z without going through OCaml's 63-bit int *)
+let z_of_string (s : string) : z =
+  let neg = String.length s > 0 && s.[0] = '-' in
+  let digits = if neg then String.sub s 1 (String.length s - 1) else s in
+  let ten = z_of_int 10 in
+  let v = ref Z0 in
+  String.iter (fun c -> v := Z.add (Z.mul !v ten) (z_of_int (Char.code c - 48))) digits;
+  if neg then Z.opp !v else !v
